@@ -27,6 +27,7 @@ import (
 	"github.com/rulego/streamsql/expr"
 	"github.com/rulego/streamsql/functions"
 	"github.com/rulego/streamsql/types"
+	"github.com/rulego/streamsql/utils/cast"
 	"github.com/rulego/streamsql/window"
 )
 
@@ -610,6 +611,15 @@ func (dp *DataProcessor) applyHavingWithCaseExpression(results []map[string]any)
 				}
 			} else if strResult, ok := havingResult.(string); ok {
 				if strResult != "" {
+					filteredResults = append(filteredResults, result)
+				}
+			} else if boolResult, ok := havingResult.(bool); ok {
+				if boolResult {
+					filteredResults = append(filteredResults, result)
+				}
+			} else if numResult, err := cast.ToFloat64E(havingResult); err == nil {
+				// Other numeric types (a group column carried through as int, int64, ...)
+				if numResult > 0 {
 					filteredResults = append(filteredResults, result)
 				}
 			} else {
